@@ -370,6 +370,10 @@ class PerceptionAnalyzerBase(ABC):
         if df is None:
             df = self.df
 
+        if not isinstance(df.index, pd.MultiIndex):
+            # no row has been added yet: there is neither ground truth nor estimation to select
+            return df
+
         df = df.xs("ground_truth", level=1)
         df = df[~df["status"].isnull()]
         for key, item in kwargs.items():
@@ -390,6 +394,10 @@ class PerceptionAnalyzerBase(ABC):
         """
         if df is None:
             df = self.df
+
+        if not isinstance(df.index, pd.MultiIndex):
+            # no row has been added yet: there is neither ground truth nor estimation to select
+            return df
 
         df = df.xs("estimation", level=1)
         df = df[~df["status"].isnull()]
